@@ -4,4 +4,7 @@ set -e
 cd "$(dirname "$0")"
 export CARGO_NET_OFFLINE=true
 ( cd engine && cargo build --offline --profile verif )
+# C36: warm the embedder template (debug build of abra_core and its dependencies) so that a batch
+# only compiles the generated bindings and glue
+( cd engine/hostgen && CARGO_TARGET_DIR="$PWD/target" cargo build --offline )
 echo "setup ok"
